@@ -32,7 +32,7 @@ func init() {
 		},
 		Batches: tiered(384, 4800),
 		Run:     runC06,
-		Timeout: timeoutFor(8*time.Minute, 40*time.Minute),
+		Timeout: timeoutFor(3*time.Minute, 40*time.Minute),
 	})
 }
 
